@@ -1305,3 +1305,50 @@ example (P : Prims) (O : OutPrims) (fs : FS) (env : Env) :
   case_bad_when_source P O {} fs 1 1 env [49] Ws.std [] [] ⟨some [50, 32, 111, 114, 32, 49], Ws.std, [.text [97]]⟩ [] Ws.std
     (.lit (.int .int 1)) [50, 32, 111, 114, 32, 49] .syntax (by decide) (by decide) rfl (by decide) (by decide)
     (fun _ h => by cases h) rfl rfl
+
+/-! ## The start line ≥ 1 of `if_else_unless_dual_up_to_line_source` is needed
+
+`RunResult.sameUpToLine` lets two errors differ in their line only when the two lines are zero together (line 0 is special in
+`parser.WrapError`: an error that carries neither path nor line is located anew by the enclosing node). From start line 0 —
+`ParseTemplateLocation` accepts it — the pair of `dual_lines_differ` fails at line 0 in the `if` form and at line 1 in the `unless`
+form (the real engine: `Liquid error: undefined variable in {{ y }}` with `LineNumber() = 0` against `Liquid error (line 1): …`),
+so the two results are not related. The cause, the message and the path flag still agree there; that they do for every pair
+started at line 0 is not proved. -/
+
+/-- **C10 (counterexample to the duality up to the line from start line 0).** -/
+theorem dual_up_to_line_needs_start_line (P : Prims) (O : OutPrims) (fs : FS) :
+    run P O strictCfg fs 1
+      (spell Delims.default (ifElseSrc [116, 114, 117, 101] [ob [121]] [.text [10]] Ws.std Ws.std Ws.std)) 0 [] =
+      .err ⟨0, true, .other "undefinedVariable", .byCause⟩ ∧
+    run P O strictCfg fs 1
+      (spell Delims.default (unlessElseSrc [116, 114, 117, 101] [.text [10]] [ob [121]] Ws.std Ws.std Ws.std)) 0 [] =
+      .err ⟨1, true, .other "undefinedVariable", .byCause⟩ ∧
+    ¬ (run P O strictCfg fs 1
+      (spell Delims.default (ifElseSrc [116, 114, 117, 101] [ob [121]] [.text [10]] Ws.std Ws.std Ws.std)) 0 []).sameUpToLine
+      (run P O strictCfg fs 1
+      (spell Delims.default (unlessElseSrc [116, 114, 117, 101] [.text [10]] [ob [121]] Ws.std Ws.std Ws.std)) 0 []) := by
+  have h1 : run P O strictCfg fs 1
+      (spell Delims.default (ifElseSrc [116, 114, 117, 101] [ob [121]] [.text [10]] Ws.std Ws.std Ws.std)) 0 [] =
+      .err ⟨0, true, .other "undefinedVariable", .byCause⟩ := by
+    rw [show Delims.default = Delims.ofList strictCfg.delims from rfl,
+      run_spell _ _ _ _ _ _ _ _ (by decide) (by decide)]
+    show runRoot P O strictCfg fs 1
+      [.ifB 0 [(.expr 0 (.lit (.bool true)), [.obj 0 (.var [121])]), (.always, [.text 0 [10]])]] [] = _
+    simp [runRoot, frender, renderRoot, renderList, renderNode, renderBranches, renderBlockBody, evalCond, wrapAt, wrapFailAt,
+      M.mapFail, M.bind, M.pure, M.getEnv, M.ofRes, M.fail, Prog.bind, Prog.mapFail, Prog.runPure, bind, pure, mkCtx,
+      evaluate, eval, Env.get, GoVal.test, GoVal.unwrap, GoVal.isNil, GoVal.toLiquid, wrapError, strictCfg, Loc.isZero]
+  have h2 : run P O strictCfg fs 1
+      (spell Delims.default (unlessElseSrc [116, 114, 117, 101] [.text [10]] [ob [121]] Ws.std Ws.std Ws.std)) 0 [] =
+      .err ⟨1, true, .other "undefinedVariable", .byCause⟩ := by
+    rw [show Delims.default = Delims.ofList strictCfg.delims from rfl,
+      run_spell _ _ _ _ _ _ _ _ (by decide) (by decide)]
+    show runRoot P O strictCfg fs 1
+      [.ifB 0 [(.notExpr 0 (.lit (.bool true)), [.text 0 [10]]), (.always, [.obj 1 (.var [121])])]] [] = _
+    simp [runRoot, frender, renderRoot, renderList, renderNode, renderBranches, renderBlockBody, evalCond, wrapAt, wrapFailAt,
+      M.mapFail, M.bind, M.pure, M.getEnv, M.ofRes, M.fail, Prog.bind, Prog.mapFail, Prog.runPure, bind, pure, mkCtx,
+      evaluate, eval, Env.get, GoVal.test, GoVal.unwrap, GoVal.isNil, GoVal.toLiquid, wrapError, strictCfg, Loc.isZero]
+  refine ⟨h1, h2, ?_⟩
+  rw [h1, h2]
+  intro h
+  have := h.2.2.2
+  simp at this
